@@ -254,6 +254,10 @@ class CSSMediaRule(cssrule.CSSRuleRules):
                 self.media = newMedia
                 self.name = name
                 self._setSeq(nameseq)
+                if oldCssRules is not self._cssRules:
+                    # the replaced rules are not part of this rule anymore
+                    for r in oldCssRules:
+                        r._parentRule = None
             else:
                 self._cssRules = oldCssRules
 
